@@ -117,8 +117,7 @@ theorem exec_preserves (cfg : Cfg) (prog : List Stmts) (Inv : St → Prop) (P : 
         · rename_i d _
           split
           · exact ihL _ _ _ _ hst
-          · rename_i x a _ _
-            exact evalThen file line env a st _ hst (fun v st1 h => ihL _ _ _ _ h)
+          · exact evalThen file line env _ st _ hst (fun v st1 h => ihL _ _ _ _ h)
           · trivial
       | letCall line e =>
         rw [execStmt]
